@@ -209,6 +209,20 @@ func hexAll(o [][]byte) []string {
 // judge compares the API replies with the on-chain result. Returns false when a
 // violation was recorded.
 func c30Judge(r *kit.Run, w map[string]any, api *c30API, res *chain.Result) bool {
+	return c30JudgeOpt(r, w, api, res, c30JudgeOpts{})
+}
+
+type c30JudgeOpts struct {
+	// SimulateActions ignores the declared keys (its scope records every access);
+	// when the generator under-declared on purpose, a failing transaction says
+	// nothing about the simulation
+	skipSimOnChainFailure bool
+	// appended to the violation keys of ExecuteActions (classifies the input, e.g.
+	// "/nil-valued-key": the list declares a key that is stored with a nil value)
+	execKeySuffix string
+}
+
+func c30JudgeOpt(r *kit.Run, w map[string]any, api *c30API, res *chain.Result, o c30JudgeOpts) bool {
 	w["chain_success"] = res.Success
 	w["chain_error"] = string(res.Error)
 	w["chain_outputs"] = hexAll(res.Outputs)
@@ -219,22 +233,24 @@ func c30Judge(r *kit.Run, w map[string]any, api *c30API, res *chain.Result) bool
 		r.Violation(key, w, format, args...)
 	}
 	// ExecuteActions
+	sfx := o.execKeySuffix
 	switch {
 	case api.ExecErr != "":
-		viol("C30/execute-rpc-error", "ExecuteActions returned an RPC error (%s) for actions the chain executed (success=%v)", api.ExecErr, res.Success)
+		viol("C30/execute-rpc-error"+sfx, "ExecuteActions returned an RPC error (%s) for actions the chain executed (success=%v)", api.ExecErr, res.Success)
 	case res.Success && api.ExecFail != "":
-		viol("C30/execute-fails-chain-succeeds", "ExecuteActions failed at action %d (%s) but the same actions succeed in a transaction", len(api.execOut), api.ExecFail)
+		viol("C30/execute-fails-chain-succeeds"+sfx, "ExecuteActions failed at action %d (%s) but the same actions succeed in a transaction", len(api.execOut), api.ExecFail)
 	case !res.Success && api.ExecFail == "":
-		viol("C30/execute-succeeds-chain-fails", "ExecuteActions succeeded but the transaction failed at action %d (%s)", len(res.Outputs), res.Error)
+		viol("C30/execute-succeeds-chain-fails"+sfx, "ExecuteActions succeeded but the transaction failed at action %d (%s)", len(res.Outputs), res.Error)
 	case len(api.execOut) != len(res.Outputs):
-		viol("C30/execute-failure-position-differs", "ExecuteActions returned %d outputs (first failure at %d), the transaction %d", len(api.execOut), len(api.execOut), len(res.Outputs))
+		viol("C30/execute-failure-position-differs"+sfx, "ExecuteActions returned %d outputs (first failure at %d), the transaction %d", len(api.execOut), len(api.execOut), len(res.Outputs))
 	case !outsEqual(api.execOut, res.Outputs):
-		viol("C30/execute-outputs-differ", "ExecuteActions outputs %v differ from the transaction's %v", hexAll(api.execOut), hexAll(res.Outputs))
+		viol("C30/execute-outputs-differ"+sfx, "ExecuteActions outputs %v differ from the transaction's %v", hexAll(api.execOut), hexAll(res.Outputs))
 	}
 	// SimulateActions
 	switch {
 	case res.Success && api.SimErr != "":
 		viol("C30/simulate-fails-chain-succeeds", "SimulateActions failed (%s) but the same actions succeed in a transaction", api.SimErr)
+	case !res.Success && o.skipSimOnChainFailure:
 	case !res.Success && api.SimErr == "":
 		viol("C30/simulate-succeeds-chain-fails", "SimulateActions succeeded but the transaction failed at action %d (%s)", len(res.Outputs), res.Error)
 	case res.Success && !outsEqual(api.simOut, res.Outputs):
@@ -491,8 +507,9 @@ func btoi(b bool) int {
 
 type c30TA struct {
 	Reads  []int `json:"reads"`
-	Writes []int `json:"writes"`
-	Fail   bool  `json:"fail,omitempty"`
+	Writes []int    `json:"writes"`
+	Vals   []string `json:"values,omitempty"` // class of each written value
+	Fail   bool     `json:"fail,omitempty"`
 }
 
 func c30Phase2(t *testing.T, r *kit.Run, cases int) {
@@ -514,9 +531,9 @@ func c30Phase2(t *testing.T, r *kit.Run, cases int) {
 	for i := range pool {
 		pool[i] = keys.EncodeChunks([]byte(fmt.Sprintf("\x7fc30-key-%d", i)), 1)
 	}
-	exists := func(k []byte) bool { // generation aid only (not an oracle)
-		_, errs := env.nd.hvm.ReadState(env.ctx, [][]byte{k})
-		return errs[0] == nil
+	exists := func(k []byte) (bool, bool) { // generation aid only (not an oracle): present, present with an empty value
+		vals, errs := env.nd.hvm.ReadState(env.ctx, [][]byte{k})
+		return errs[0] == nil, errs[0] == nil && len(vals[0]) == 0
 	}
 	mk := func(d c30TA, nonce uint64, declared state.Keys, val func() []byte) *chaintest.TestAction {
 		a := &chaintest.TestAction{
@@ -543,9 +560,12 @@ func c30Phase2(t *testing.T, r *kit.Run, cases int) {
 			n = 6 + rng.IntN(11)
 		}
 		present := map[int]bool{}
+		emptyNow := map[int]bool{}
 		for i := range pool {
-			present[i] = exists(pool[i])
+			present[i], emptyNow[i] = exists(pool[i])
 		}
+		// half of the transactions are parsed back from their wire form before submission
+		env.wire = rng.IntN(2) == 0
 		descs := make([]c30TA, n)
 		vals := make([][][]byte, n)
 		var shape strings.Builder
@@ -561,7 +581,22 @@ func c30Phase2(t *testing.T, r *kit.Run, cases int) {
 			for k := 0; k < rng.IntN(4); k++ {
 				j := rng.IntN(nKeys)
 				d.Writes = append(d.Writes, j)
-				vals[i] = append(vals[i], []byte(fmt.Sprintf("v%d.%d.%d.%s", c, i, k, strings.Repeat("x", rng.IntN(30)))))
+				// boundary values: empty (a key that exists with a zero-length value),
+				// a single zero byte, the largest value a 1-chunk key admits (63 bytes)
+				switch x := rng.IntN(100); {
+				case x < 22:
+					vals[i] = append(vals[i], []byte{})
+					d.Vals = append(d.Vals, "empty")
+				case x < 30:
+					vals[i] = append(vals[i], []byte{0})
+					d.Vals = append(d.Vals, "zero")
+				case x < 38:
+					vals[i] = append(vals[i], bytes.Repeat([]byte{byte(c)}, 63))
+					d.Vals = append(d.Vals, "full")
+				default:
+					vals[i] = append(vals[i], []byte(fmt.Sprintf("v%d.%d.%d.%s", c, i, k, strings.Repeat("x", rng.IntN(30)))))
+					d.Vals = append(d.Vals, "some")
+				}
 			}
 			missing := false
 			for _, j := range d.Reads {
@@ -576,7 +611,7 @@ func c30Phase2(t *testing.T, r *kit.Run, cases int) {
 				}
 			}
 			descs[i] = d
-			fmt.Fprintf(&shape, "r%vw%v%v;", d.Reads, d.Writes, d.Fail)
+			fmt.Fprintf(&shape, "r%vw%v%v%v;", d.Reads, d.Writes, d.Vals, d.Fail)
 		}
 		w := map[string]any{"phase": 2, "case": c, "actions": descs}
 		valOf := func(i int) func() []byte {
@@ -645,6 +680,20 @@ func c30Phase2(t *testing.T, r *kit.Run, cases int) {
 			nk += len(ks)
 		}
 		r.Count("p2_declared_keys", nk)
+		// keys that exist with an empty value on the state S of this case and are
+		// read / overwritten by the list; Write without Allocate as simulated
+		for i, d := range descs {
+			for _, j := range d.Reads {
+				r.Count("p2_reads_of_empty_valued_keys", btoi(emptyNow[j]))
+			}
+			for x, j := range d.Writes {
+				r.Count("p2_writes_to_empty_valued_keys", btoi(emptyNow[j]))
+				r.Count("p2_empty_values_written", btoi(d.Vals[x] == "empty"))
+				if p, ok := sim.simKeys[i][string(pool[j])]; ok && emptyNow[j] && p.Has(state.Write) && !p.Has(state.Allocate) {
+					r.Count("p2_write_without_allocate_simulated_on_empty_valued_key", 1)
+				}
+			}
+		}
 		if nk > 0 {
 			r.Distinct("p2", shape.String())
 		}
@@ -659,17 +708,21 @@ func TestC30(t *testing.T) {
 		t.Skip("parent only")
 	}
 	r := kit.Start(t, "C30", "exploration")
-	r.Rule("phase 1 (morpheusvm): random actor of 7 (5 funded incl. balances 1, 7, 2^63; 2 empty) and 1..16 Transfer actions (recipients: self / pool / repeated / fresh address; amounts: 0, 1-3, share of the remaining balance, the whole remaining balance, remaining+1, MaxUint64; unique memo); JSON-RPC ExecuteActions and SimulateActions are called on the committed state, the actions are re-run on a tstate view whose scope is the union of the simulated keys, then the same actions run in a transaction (fee 0) built and accepted on the same VM. phase 2 (hypersdk test VM): 1..16 chaintest.TestActions reading/writing a pool of 10 keys; the key sets SimulateActions reports are declared in the actions of a real transaction. non-trivial = an on-chain transaction exists and (phase 1) the list has >= 2 actions / (phase 2) at least one key was declared; distinct = shape of the list (actor, recipient class, amount class per action) + outcome")
+	r.Rule("phase 1 (morpheusvm): random actor of 7 (5 funded incl. balances 1, 7, 2^63; 2 empty) and 1..16 Transfer actions (recipients: self / pool / repeated / fresh address; amounts: 0, 1-3, share of the remaining balance, the whole remaining balance, remaining+1, MaxUint64; unique memo); JSON-RPC ExecuteActions and SimulateActions are called on the committed state, the actions are re-run on a tstate view whose scope is the union of the simulated keys, then the same actions run in a transaction (fee 0) built and accepted on the same VM. phase 2 (hypersdk test VM): 1..16 chaintest.TestActions reading/writing a pool of 10 keys; the key sets SimulateActions reports are declared in the actions of a real transaction; written values: 22% empty ([]byte{}), 8% a single zero byte, 8% the largest value the key admits (63 bytes), else 5..40 bytes, so that keys which EXIST WITH AN EMPTY VALUE are read and overwritten with the simulated Write-without-Allocate permission; half of the transactions are parsed back from their wire bytes before submission. phase 3 (test VM + chainfx.ProgAction get/put/del whose output encodes every read as absent | present,len,bytes): pool of 10 keys with value capacity 0, 1, 2 and 16 chunks; a seeding transaction stores an empty non-nil value, a nil value, a zero byte and maximal values; the state of every case is what the earlier accepted transactions left. 1..16 actions of 1..4 ops (35% get, 44% put, 20% del, 1% explicit failure), 45% of the keys chosen among those currently stored with an empty value; put values: 20% empty non-nil, 12% nil, 10% one zero byte, 14% exactly the key's capacity (64*chunks-1), 2% capacity+1 (must fail), else random length (on the capacity-0 key mostly the empty value); a third of the transactions are parsed back from their wire bytes (ParseProg turns empty into nil); so empty-valued keys are read, overwritten (also empty over empty), deleted and re-created inside one list and across transactions. declaration: 60% 'simulated' (the per-action key sets of SimulateActions are declared; falls back to manual when the simulation fails), 40% 'manual' (each action declares exactly what it needs: Read for get, Write for overwrite/delete, Allocate|Write for create; 15% All everywhere; 22% one victim key declared in EVERY action of the list without Allocate / read-only / not at all, so both sides must fail at the same action). ExecuteActions outputs + failure position and SimulateActions outputs are compared with the transaction built and accepted on the same state as in phase 2. non-trivial = an on-chain transaction exists and (phase 1) the list has >= 2 actions / (phase 2) at least one key was declared / (phase 3) always (every action touches a key or fails); distinct = shape of the list (phase 1: actor, recipient class, amount class per action; phase 2: read/written keys + value classes; phase 3: mode, victim kind, per op kind+key+class of the stored value+class of the written value) + outcome")
 	r.Assume(
 		"all unit prices are 0, hence the transaction fee is 0 and the sponsor's balance seen by the actions equals the balance the APIs read (checked: Result.Fee == 0)",
 		"lists whose transaction cannot exist on chain (actor without a balance record: fee deduction fails) have no on-chain outputs; they are evaluated but not compared",
 		"when the transaction fails at action i, SimulateActions must fail too (it returns no partial outputs); ExecuteActions must report the first failure at i with the same i outputs; error texts are not compared",
-		"action behaviour does not depend on the wall clock or the action id (true for Transfer and TestAction), so the APIs' time.Now() is irrelevant",
+		"action behaviour does not depend on the wall clock or the action id (true for Transfer, TestAction and ProgAction), so the APIs' time.Now() is irrelevant",
+		"phase 3 manual declarations are self-contained per action: ExecuteActions scopes each action to its own declared keys while a transaction scopes every action to the union over its actions, so lists in which an action relies on a key declared only by another action are not generated (the statement speaks of 'the same actions', taken as actions that are executable on their own declaration)",
+		"SimulateActions records accesses instead of checking the declared keys: when the generator under-declared on purpose and the transaction therefore fails, the simulation is not compared (ExecuteActions is)",
+		"vm.ReadState is used as a generation aid (which pool keys exist / are empty) and to classify witnesses (suffix /nil-valued-key: the list declares a key for which ReadState returns a nil slice and a nil error), never as an oracle",
 	)
 	// Replay: the state of a case depends on all earlier cases, so a replay file
 	// re-runs the whole (seeded, deterministic) sequence of its tier and seed.
 	c30Phase1(t, r, r.N(1500, 20000))
 	c30Phase2(t, r, r.N(600, 8000))
+	c30Phase3(t, r, r.N(700, 8000))
 	if r.Replay() != nil {
 		r.Finish(0)
 		return
